@@ -240,6 +240,37 @@ def swapSym (t : Table) (old new : Sym) : Except Err Table :=
     | .error e => .error e
     | .ok t' => addSym t' [] new none
 
+/-- `type(self).copy_properties(symbol_in)` accepts `symbol_in` (else TypeError) -/
+def copyAccepts (self inn : Kind) : Bool :=
+  match self with
+  | .generic | .container => true
+  | .routine | .intrinsic => inn == .data || inn == .routine || inn == .intrinsic
+  | .data => inn == .data
+  | .datatype => inn == .datatype
+
+def swapArgs (args : List Nat) (i j : Nat) : List Nat :=
+  -- index1/index2 are computed first, then `args[index1] = symbol2`, `args[index2] = symbol1`
+  let i1 := args.idxOf i
+  let i2 := args.idxOf j
+  let a1 := if i1 < args.length then args.set i1 j else args
+  if i2 < args.length then a1.set i2 i else a1
+
+/-- `swap_symbol_properties(symbol1, symbol2)`; `s1`, `s2` are the current records of the two symbol
+objects, which are entries of this table.  The membership test uses the *raw* name
+(`symbol.name not in self._symbols`), and `symbol2.copy_properties(tmp)` can raise after
+`symbol1.copy_properties(symbol2)` has already changed `symbol1`. -/
+def swapProps (t : Table) (s1 s2 : Sym) : Option Err × Table :=
+  if !hasKey t.ents s1.name then (some .key, t)
+  else if !hasKey t.ents s2.name then (some .key, t)
+  else if lower s1.name == lower s2.name then (some .value, t)
+  else if !copyAccepts s1.kind s2.kind then (some .type, t)
+  else
+    let t1 := { t with ents := updKey t.ents (lower s1.name) fun s => { s with iface := s2.iface } }
+    if !copyAccepts s2.kind s1.kind then (some .type, t1)
+    else
+      (none, { t1 with ents := updKey t1.ents (lower s2.name) fun s => { s with iface := s1.iface },
+                       args := swapArgs t.args s1.id s2.id })
+
 /-- `_validate_arg_list` -/
 def validateArgs : List (Option Sym) → Option Err
   | [] => none
@@ -283,49 +314,62 @@ def setKind (t : Table) (k : Name) (kd : Kind) : Table :=
 /-- `Symbol.specialise(IntrinsicSymbol)` is legal for a generic Symbol or a RoutineSymbol -/
 def canSpecialise (k : Kind) : Bool := k == .generic || k == .routine
 
+/-- verdict of one iteration of the loop of `check_for_clashes` (code with fixes/C16-defer-specialise.patch:
+the specialisation of intrinsic-named unresolved symbols is deferred until every check has passed) -/
+inductive CheckRes where
+  | pass
+  /-- accepted; the clashing pair is to be specialised to IntrinsicSymbol afterwards -/
+  | spec
+  | fail (e : Err)
+  deriving DecidableEq, Repr
+
 /-- one iteration of the loop of `check_for_clashes` -/
-def checkOne (cx : MergeCtx) (self other : Table) (o : Sym) : MR :=
+def checkOne (cx : MergeCtx) (self other : Table) (o : Sym) : CheckRes :=
   let k := lower o.name
   match getKey self.ents k with
-  | none => ⟨none, self, other⟩
+  | none => .pass
   | some this =>
-    if o.id ∈ cx.skip then ⟨none, self, other⟩
-    else if this.kind == .container && o.kind == .container then ⟨none, self, other⟩
-    else if this.kind == .intrinsic && o.kind == .intrinsic then ⟨none, self, other⟩
+    if o.id ∈ cx.skip then .pass
+    else if this.kind == .container && o.kind == .container then .pass
+    else if this.kind == .intrinsic && o.kind == .intrinsic then .pass
     else if o.iface.isImport && this.iface.isImport then
-      if this.iface.importEq o.iface then ⟨none, self, other⟩ else ⟨some .symbol, self, other⟩
+      if this.iface.importEq o.iface then .pass else .fail .symbol
     else if o.iface == .unresolved && this.iface == .unresolved then
       let si := wildcards (self.ents :: cx.selfAnc)
       let oi := wildcards (other.ents :: cx.otherAnc)
       let shared := si.any (oi.contains ·)
       let unique := si.any (!oi.contains ·) || oi.any (!si.contains ·)
-      if shared && !unique then ⟨none, self, other⟩
-      else if si.isEmpty && oi.isEmpty && cx.intr.contains (lower this.name) then
-        -- specialise this_sym, then other_sym (each may raise TypeError)
-        if this.kind != .intrinsic && !canSpecialise this.kind then ⟨some .type, self, other⟩
-        else
-          let self' := if this.kind != .intrinsic then setKind self k .intrinsic else self
-          if o.kind != .intrinsic && !canSpecialise o.kind then ⟨some .type, self', other⟩
-          else
-            let other' := if o.kind != .intrinsic then setKind other k .intrinsic else other
-            ⟨none, self', other'⟩
-      else ⟨some .symbol, self, other⟩
+      if shared && !unique then .pass
+      else if si.isEmpty && oi.isEmpty && cx.intr.contains (lower this.name)
+          && (this.kind == .intrinsic || canSpecialise this.kind)
+          && (o.kind == .intrinsic || canSpecialise o.kind) then .spec
+      else .fail .symbol
     else
       match renameSym self this.id [] true with
-      | .ok _ => ⟨none, self, other⟩
+      | .ok _ => .pass
       | .error .symbol =>
         match renameSym other o.id [] true with
-        | .ok _ => ⟨none, self, other⟩
-        | .error e => ⟨some e, self, other⟩
-      | .error e => ⟨some e, self, other⟩
+        | .ok _ => .pass
+        | .error e => .fail e
+      | .error e => .fail e
 
-/-- `check_for_clashes(other_table, symbols_to_skip)`: loop over `other_table.symbols` -/
-def checkLoop (cx : MergeCtx) : List Sym → Table → Table → MR
-  | [], self, other => ⟨none, self, other⟩
-  | o :: r, self, other =>
+/-- `check_for_clashes(other_table, symbols_to_skip)`: loop over `other_table.symbols`; on success the keys
+of the pairs to specialise -/
+def checkLoop (cx : MergeCtx) (self other : Table) : List Sym → Except Err (List Name)
+  | [] => .ok []
+  | o :: r =>
     match checkOne cx self other o with
-    | ⟨none, s', o'⟩ => checkLoop cx r s' o'
-    | res => res
+    | .fail e => .error e
+    | .pass => checkLoop cx self other r
+    | .spec =>
+      match checkLoop cx self other r with
+      | .error e => .error e
+      | .ok ks => .ok (lower o.name :: ks)
+
+/-- the deferred `sym.specialise(IntrinsicSymbol)` calls -/
+def specAll : Table → List Name → Table
+  | t, [] => t
+  | t, k :: r => specAll (setKind t k .intrinsic) r
 
 /-- rename a symbol of `self` to the next available name derived from `root` -/
 def renameFresh (cx : MergeCtx) (self other : Table) (i : Nat) (root : Name) : Except Err Table :=
@@ -417,9 +461,11 @@ def containersOf (e : Ents) : List Sym := (e.map Prod.snd).filter (·.kind == .c
 /-- `merge(other_table, symbols_to_skip)`; phase: 0 = rejected by `check_for_clashes`, 1 = failed while
 adding containers, 2 = failed while adding symbols, 3 = success. -/
 def mergeTables (cx : MergeCtx) (self other : Table) : MR × Nat :=
-  match checkLoop cx (other.ents.map Prod.snd) self other with
-  | ⟨some e, s, o⟩ => (⟨some e, s, o⟩, 0)
-  | ⟨none, s1, o1⟩ =>
+  match checkLoop cx self other (other.ents.map Prod.snd) with
+  | .error e => (⟨some e, self, other⟩, 0)
+  | .ok ks =>
+    let s1 := specAll self ks
+    let o1 := specAll other ks
     match containerLoop cx (containersOf o1.ents) s1 o1 with
     | ⟨some e, s, o⟩ => (⟨some e, s, o⟩, 1)
     | ⟨none, s2, o2⟩ =>
@@ -451,6 +497,7 @@ inductive Op where
   | remove (t : Nat) (sym : Nat)
   | swap (t : Nat) (old : Nat) (new : NewSym)
   | setArgs (t : Nat) (syms : List Nat)
+  | swapProps (t : Nat) (s1 s2 : Nat)                          -- t.swap_symbol_properties(s1, s2)
   | merge (t : Nat) (other : Nat) (skip : List Nat) (intr : List Name)
   | attach (t : Nat) (node : Nat)
   | detach (t : Nat)
@@ -585,6 +632,15 @@ def step (st : State) : Op → Outcome × State
       match validateArgs (is.map (findSym st)) with
       | some e => (.err e, st)
       | none => (.ok, setTab st t { tab st t with args := is })
+    else (.unsupported, st)
+  | .swapProps t i j =>
+    if t < st.tabs.length then
+      match getId (tab st t).ents i, getId (tab st t).ents j with
+      | some s1, some s2 =>
+        match swapProps (tab st t) s1 s2 with
+        | (some e, tb) => (.err e, setTab st t tb)
+        | (none, tb) => (.ok, setTab st t tb)
+      | _, _ => (.unsupported, st)
     else (.unsupported, st)
   | .merge t o skip intr =>
     if t < st.tabs.length && o < st.tabs.length && t != o && !(chain st t none).contains o
